@@ -284,21 +284,4 @@ theorem Bal.unbump_none {h : Nat → Nat} {s : St} {i : Nat} (hb : Bal (bump h i
     rw [e', hn] at hj; cases hj
   · exact Or.inr a
 
-theorem Bal.coll {h : Nat → Nat} (s : St) (hb : Bal h s) : Bal h (collect s) :=
-  (bal_prims h none).collect (fun _ _ x => x) (fun _ _ x => x) hb
-
-theorem Bal.epi {h : Nat → Nat} {s : St} {i : Nat} (m : Nat) (hb : Bal (bump h i) s) :
-    Bal h (emitEpi s i m) := by
-  unfold Inv.emitEpi
-  split
-  · rename_i hn
-    exact Bal.fail _ (Bal.unbump_none hb hn)
-  · apply Bal.coll
-    apply BalW.gcImpl
-    apply Bal.drop
-    apply (bal_prims (bump h i) none).unrefExec
-    split
-    · exact (bal_prims (bump h i) none).eraseCell _ _ hb
-    · exact Bal.fail _ hb
-
 end Sigc.Inv
